@@ -1065,15 +1065,15 @@ seq_t dtw_warping_paths_ndim(seq_t *wps,
         } else {
             p.max_dist = ub_euclidean_ndim(s1, l1, s2, l2, ndim);
         }
-        // sqrt followed by pow can round below the exact sum, keep the bound an upper bound
-        p.max_dist = pow(p.max_dist, 2) * (1 + 4*DBL_EPSILON);
         if (settings->only_ub) {
             if (keep_int_repr) {
-                return p.max_dist;
+                return pow(p.max_dist, 2);
             } else {
-                return sqrt(p.max_dist);
+                return p.max_dist;
             }
         }
+        // sqrt followed by pow can round below the exact sum, keep the bound an upper bound
+        p.max_dist = pow(p.max_dist, 2) * (1 + 4*DBL_EPSILON);
     }
 
     idx_t ri, ci, min_ci, max_ci, wpsi, wpsi_start;
@@ -1441,16 +1441,12 @@ seq_t dtw_warping_paths_ndim_euclidean(seq_t *wps,
     DTWWps p = dtw_wps_parts(l1, l2, settings);
     if (settings->use_pruning || settings->only_ub) {
         if (ndim == 1) {
-            p.max_dist = ub_euclidean(s1, l1, s2, l2);
+            p.max_dist = ub_euclidean_euclidean(s1, l1, s2, l2);
         } else {
-            p.max_dist = ub_euclidean_ndim(s1, l1, s2, l2, ndim);
+            p.max_dist = ub_euclidean_ndim_euclidean(s1, l1, s2, l2, ndim);
         }
         if (settings->only_ub) {
-            if (keep_int_repr) {
-                return p.max_dist;
-            } else {
-                return sqrt(p.max_dist);
-            }
+            return p.max_dist;
         }
     }
 
